@@ -404,3 +404,30 @@ def rule_spec(rule, sp=None):
     if rule.get("doc_spec") is not None:
         out["doc"] = rule["doc_spec"]
     return out
+
+
+def alias_spec(x):
+    """a copy of a spec structure in which equal non-empty mappings / lists are ONE shared object - what YAML anchors
+    and aliases produce, or a caller who builds several specs from the same pieces"""
+    seen = {}
+
+    def key(v):
+        if type(v) is dict:
+            return ("d",) + tuple((repr(k), key(w)) for k, w in v.items())
+        if type(v) is list:
+            return ("l",) + tuple(key(w) for w in v)
+        return (type(v).__name__, repr(v))
+
+    def walk(v):
+        if type(v) in (dict, list) and v:
+            k = key(v)
+            if k in seen:
+                return seen[k]
+            out = {kk: None for kk in v} if type(v) is dict else [None] * len(v)
+            seen[k] = out
+            for kk, w in (v.items() if type(v) is dict else enumerate(v)):
+                out[kk] = walk(w)
+            return out
+        return v
+    top = walk(x)
+    return top
